@@ -649,12 +649,95 @@ def facet_sides():
     return ('(* FacetBasis.__init__: row of f2t (negative rows count from the end: row mod 2) giving the cell on side 0 / 1 *)\n'
             + '\n'.join(out))
 
+# ------------------------------------------------------------------------------------------ Form._normalize_asm_kwargs
+FRM = 'skfem/assembly/form/form.py'
+
+
+def normalize_kwargs():
+    fn = t2.find_def(t2.parse(FRM), '_normalize_asm_kwargs', 'Form')
+    if [a.arg for a in fn.args.args] != ['w', 'basis']:
+        raise TranslateError('_normalize_asm_kwargs signature')
+    body = _nodoc(fn.body)
+    if len(body) != 2 or not isinstance(body[0], ast.For) or t2.src(body[0].target) != 'k' or t2.src(body[0].iter) != 'w' \
+            or t2.src(body[1]) != 'return w':
+        raise TranslateError('_normalize_asm_kwargs: loop over the keys / return w')
+    node = t2.only(body[0].body, '_normalize_asm_kwargs loop body')
+    chain = []
+    while isinstance(node, ast.If):
+        chain.append((' '.join(t2.src(node.test).split()), node.body))
+        if len(node.orelse) == 1 and isinstance(node.orelse[0], ast.If):
+            node = node.orelse[0]
+        else:
+            chain.append(('else', node.orelse))
+            break
+    kinds = {'isinstance(w[k], DiscreteField)': 'RField', 'isinstance(w[k], numbers.Number)': 'RNumber',
+             'isinstance(w[k], tuple)': 'RTuple', 'isinstance(w[k], ndarray) and len(w[k].shape) == 1': 'RVector',
+             'isinstance(w[k], ndarray) and len(w[k].shape) > 1': 'RArray', 'isinstance(w[k], list)': 'RList', 'else': 'ROther'}
+    act = {}
+    order = []
+    for test, stmts in chain:
+        if test not in kinds:
+            raise TranslateError('_normalize_asm_kwargs: unknown case: ' + test)
+        kd = kinds[test]
+        order.append(kd)
+        srcs = [' '.join(t2.src(x).split()) for x in stmts]
+        if kd == 'RField':
+            if not (len(stmts) == 1 and isinstance(stmts[0], ast.If) and ' '.join(t2.src(stmts[0].test).split()) == 'w[k].shape[-1] != basis.X.shape[-1]'
+                    and isinstance(stmts[0].body[0], ast.Raise) and not stmts[0].orelse):
+                raise TranslateError('_normalize_asm_kwargs: DiscreteField case: ' + repr(srcs))
+            act[kd] = 'RField f nq => if nq =? bnq b then Some (NField f) else None'
+        elif kd in ('RNumber', 'RTuple'):
+            if srcs != ['continue']:
+                raise TranslateError(f'_normalize_asm_kwargs: {kd} case: ' + repr(srcs))
+            act[kd] = 'RNumber s => Some (NNumber s)' if kd == 'RNumber' else 'RTuple => Some NTuple'
+        elif kd == 'RVector':
+            if srcs != ['w[k] = basis.interpolate(w[k])']:
+                raise TranslateError('_normalize_asm_kwargs: 1-d array case: ' + repr(srcs))
+            act[kd] = 'RVector u len => if len =? bN b then Some (NField (interp R rO V vadd vscale b u)) else None'
+        elif kd == 'RArray':
+            if srcs != ['w[k] = DiscreteField(w[k])']:
+                raise TranslateError('_normalize_asm_kwargs: n-d array case: ' + repr(srcs))
+            act[kd] = 'RArray a => Some (NField a)'
+        elif kd == 'ROther':
+            if not (len(stmts) == 1 and isinstance(stmts[0], ast.Raise)):
+                raise TranslateError('_normalize_asm_kwargs: else case must raise: ' + repr(srcs))
+            act[kd] = 'ROther => None'
+    if order[:1] != ['RField'] or order[-1:] != ['ROther'] or sorted(k for k in act) != ['RArray', 'RField', 'RNumber', 'ROther', 'RTuple', 'RVector']:
+        raise TranslateError('_normalize_asm_kwargs: cases ' + repr(order) + ' (DiscreteField must be tested before ndarray)')
+    # AbstractBasis.interpolate rejects a vector of the wrong length
+    itp = t2.find_def(t2.parse('skfem/assembly/basis/abstract_basis.py'), 'interpolate', 'AbstractBasis')
+    first = _nodoc(itp.body)[0]
+    if ' '.join(t2.src(first).split()) != "if w.shape[0] != self.N: raise ValueError('Input array has wrong size.')":
+        raise TranslateError('AbstractBasis.interpolate size check: ' + t2.src(first)[:100])
+    # which basis normalises / supplies the defaults in the three form types
+    def pstmt(path, cls, fname, bases, alias=None):
+        f = t2.find_def(t2.parse(path), fname, cls)
+        sc = Scope(bases)
+        hits = []
+        for st in _nodoc(f.body):
+            if isinstance(st, ast.Assign) and 'FormExtraParams' in t2.src(st.value):
+                hits.append(_params_stmt(st, sc)[1])
+        d, n = t2.only(hits, f'{cls}.{fname}: FormExtraParams statement')
+        return (alias or {}).get(d, d), (alias or {}).get(n, n)
+    pb = pstmt(BIL, 'BilinearForm', '_assemble', ['ubasis', 'vbasis'])
+    pl = pstmt(LIN, 'LinearForm', '_assemble', ['ubasis', 'vbasis'], {'vbasis': 'ubasis'})      # vbasis = ubasis there
+    pf = pstmt(FUN, 'Functional', 'elemental', ['v'], {'v': 'ubasis'})
+    cases = '\n    | '.join(act[k] for k in ('RField', 'RNumber', 'RTuple', 'RVector', 'RArray', 'ROther'))
+    def pdef(name, extra, p):
+        return (f'  Definition {name} (dflt : basis R V -> list (nat * norm R V)) (kw : list (nat * raw R V)) (ubasis : basis R V){extra} '
+                f': option (nat -> option (norm R V)) :=\n'
+                f'    match normalize_all R V (gen_normalize_one {p[1]}) kw with Some u => Some (merged (dflt {p[0]}) u) | None => None end.')
+    return ('Section GenParams.\n  Variable R : Type.\n  Variable rO : R.\n  Variable V : Type.\n  Variables (vadd : V -> V -> V) (vscale : R -> V -> V).\n'
+            '  Definition gen_normalize_one (b : basis R V) (p : raw R V) : option (norm R V) :=\n    match p with\n    | ' + cases + '\n    end.\n'
+            + pdef('gen_params_bilinear', ' (vbasis : basis R V)', pb) + '\n' + pdef('gen_params_linear', '', pl) + '\n'
+            + pdef('gen_params_functional', '', pf) + '\nEnd GenParams.')
+
 
 HEADER = '''(* GENERATED by vlib/c01_translate.py from bilinear_form.py, linear_form.py, functional.py, trilinear_form.py, coo_data.py
    of the implementation under test — do not edit *)
 From Coq Require Import List Arith Bool.
 Import ListNotations.
-Require Import Base.C01_Sums Model.C01_Assembly Model.C01_Trilinear.
+Require Import Base.C01_Sums Model.C01_Assembly Model.C01_Trilinear Model.C01_Params.
 
 Section Gen.
   Variable R : Type.
@@ -668,4 +751,4 @@ def translate():
     parts = [bilinear(), linear(), functional(), coodata(), trilinear()]
     body = '\n\n'.join(parts)
     body = '\n'.join(('  ' + l if l else l) for l in body.split('\n'))
-    return HEADER + body + '\nEnd Gen.\n\nRequire Import ZArith.\nLocal Open Scope Z_scope.\n' + facet_sides() + '\n'
+    return HEADER + body + '\nEnd Gen.\n\n' + normalize_kwargs() + '\n\nRequire Import ZArith.\nLocal Open Scope Z_scope.\n' + facet_sides() + '\n'
